@@ -15,6 +15,7 @@ import (
 	"net/url"
 	"os"
 	"path/filepath"
+	"reflect"
 	"sort"
 	"strings"
 	"sync/atomic"
@@ -38,6 +39,8 @@ func init() {
 			"reader payloads with short reads and data+EOF, seekable upload sources handed over at offsets 0..700 of a longer file, Runtime.Debug on; the transport also records Request.ContentLength and re-reads Request.GetBody. A refuted case is re-run with each decoration taken away, so that witness and signature keep only what matters. " +
 			"upload sources are the harness's own types, real *os.File values (scratch files, at offset 0 and partly read) and runtime.NamedReader over a *bytes.Reader or over a value with a Read method only; a sixth of the random mixes are submitted after 1-2 other requests of the mix on the same Runtime; " +
 			"per shard 40 (400) requests have one upload source whose Read fails with a non-EOF error after 0..33000 bytes (inside, at the end of and after the sniffing window; alone, before, between and after healthy files): such a request must fail (Submit, or the transport's read of the body), or else hold every file in full. " +
+			"in a quarter of the requests that have one the authentication writer is installed as Runtime.DefaultAuthentication instead of ClientOperation.AuthInfo; a third of the writers also read GetMethod, GetPath, GetBodyParam and GetFileParam before and after their GetBody calls (half of those on a pattern /things/{id} with values that need escaping); " +
+			"an eighth of the JSON/XML values have no encoding (the producer refuses them), half of the ReadCloser payloads fail on Close: such a request must fail or else be sent like any other; a request without payload carries no Content-Type. " +
 			"non-trivial = every judged request; distinct by (payload kind, media type, value kind, #fields, file name/kind/length/chunking/declared type, GetBody count)",
 		Assumptions: []string{
 			"the expected encoding of a value is what the registered producer writes for it into a plain buffer (differential: the transport must not alter, truncate or re-encode it)",
@@ -48,6 +51,10 @@ func init() {
 			"the content of an upload is what its reader has to offer from the position at which it is handed over",
 			"the media type that describes a reader payload is the one chosen for the operation, whatever Content-Type the params writer had put in the header parameters and whatever the method",
 			"which of several offered media types is chosen is not judged: the Content-Type must be one of the non-empty offered ones (the Runtime's default when none is offered) and the body must be that type's encoding",
+			"an authentication writer that is installed (for the operation or as the Runtime's default) is run on the request that is sent; what it reads through GetMethod, GetPath (the pattern with the values as given: the path sent, decoded, is the base path followed by it), GetBodyParam (the value, or the very reader, handed to SetBodyParam) and GetFileParam (the upload sources by field, in order) is what was handed over and what is sent",
+			"a request without payload, form fields and files sends nothing: a Content-Type header on it describes no body and is refuted (none is preset in such a case)",
+			"a value for which the chosen type's producer has no encoding, written into a plain buffer, cannot be sent: the request must fail; a ReadCloser payload whose Close fails may make the request fail",
+			"a failure of the harness's own scratch files (os-file sources) is an environment class (env:...), tried twice, never judged",
 			"a declared Request.ContentLength binds the transport (net/http: > 0, or 0 with no body) and must equal the number of body bytes; Request.GetBody, when set, must give the bytes of the body",
 		},
 		MinNontrivial: 200,
@@ -120,6 +127,30 @@ type Case struct {
 	// Prior are other requests submitted on the same Runtime before this one (each with a transport of its
 	// own). They are not judged here; what is sent for this case must not depend on them.
 	Prior []Case `json:"prior,omitempty"`
+	// AuthDefault: the authentication writer is installed as Runtime.DefaultAuthentication (the signer of a whole
+	// transport) instead of ClientOperation.AuthInfo.
+	AuthDefault bool `json:"authDefault,omitempty"`
+	// AuthReads: the authentication writer also reads the request's other views (GetMethod, GetPath, GetBodyParam,
+	// GetFileParam), before and after its GetBody calls; what they say must agree with what is sent.
+	AuthReads bool `json:"authReads,omitempty"`
+	// PathValue: when not empty the path pattern is /things/{id} and the params writer sets id to this value.
+	PathValue string `json:"pathValue,omitempty"`
+	// BodyCloseErr: the Close of a readcloser payload returns an error. Such a request may fail; when it is
+	// reported as sent, what is sent is judged like any other.
+	BodyCloseErr bool `json:"bodyCloseErr,omitempty"`
+}
+
+var errPayloadClose = errors.New("c11: the payload's Close failed")
+
+type errCloser struct{ io.Reader }
+
+func (errCloser) Close() error { return errPayloadClose }
+
+// authView is what the request says about itself to an authentication writer, apart from the body bytes.
+type authView struct {
+	method, path string
+	bodyParam    interface{}
+	files        map[string][]string // field -> Name() of every source, in order
 }
 
 func content(kind string, n int) []byte {
@@ -264,6 +295,7 @@ type capture struct {
 	hadBody bool
 	err     error
 	method  string
+	path    string // URL.Path: the path sent, decoded
 	// what a real transport goes by besides the bytes it can read
 	contentLength int64
 	lengthKnown   bool // the declared length binds the transport (it is not "unknown")
@@ -275,6 +307,7 @@ type capture struct {
 func (c *capture) RoundTrip(r *http.Request) (*http.Response, error) {
 	c.header = r.Header.Clone()
 	c.method = r.Method
+	c.path = r.URL.Path
 	c.contentLength = r.ContentLength
 	// net/http: for an outgoing request, 0 with a non-nil Body (other than NoBody) means unknown, as does -1
 	c.lengthKnown = r.ContentLength > 0 || (r.ContentLength == 0 && (r.Body == nil || r.Body == http.NoBody))
@@ -316,6 +349,8 @@ func valueFor(kind string, n int) interface{} {
 		return content("binary", n)
 	case "records":
 		return [][]string{{"a", "b"}, {s, "x,y"}, {"q\"uote", "new\nline"}}
+	case "unencodable": // no JSON and no XML encoding exists for it
+		return map[string]interface{}{"k": s, "c": make(chan int)}
 	}
 	return s
 }
@@ -443,6 +478,10 @@ var strippers = []func(*Case) bool{
 		return had
 	},
 	func(c *Case) bool { had := c.Debug; c.Debug = false; return had },
+	func(c *Case) bool { had := c.AuthDefault; c.AuthDefault = false; return had },
+	func(c *Case) bool { had := c.AuthReads; c.AuthReads = false; return had },
+	func(c *Case) bool { had := c.PathValue != ""; c.PathValue = ""; return had },
+	func(c *Case) bool { had := c.BodyCloseErr; c.BodyCloseErr = false; return had },
 	func(c *Case) bool { had := c.BodyChunk > 0 || c.BodyEOF; c.BodyChunk, c.BodyEOF = 0, false; return had },
 	func(c *Case) bool { had := c.Consumes != ""; c.Consumes, c.Other = "", ""; return had },
 	func(c *Case) bool { had := c.Variant != ""; c.Variant = ""; return had },
@@ -507,6 +546,7 @@ func submitOn(r *client.Runtime, sw *switchTransport, producers map[string]rt.Pr
 	if viaDefault {
 		r.DefaultMediaType = c.chosen()
 	}
+	r.DefaultAuthentication = nil
 	r.Debug = false
 	if c.Debug {
 		r.SetLogger(discardLogger{})
@@ -521,36 +561,51 @@ func submitOn(r *client.Runtime, sw *switchTransport, producers map[string]rt.Pr
 	var uploads []*upload
 	var stream []byte
 	var sawBodies [][]byte
+	var sawViews []authView
+	var payloadObj interface{} // the very object handed to SetBodyParam
+	var scratchErr error       // a failure of the harness's own scratch files: nothing of the library's
+	pattern := "/things"
+	if c.PathValue != "" {
+		pattern = "/things/{id}"
+	}
 	params := rt.ClientRequestWriterFunc(func(req rt.ClientRequest, _ strfmt.Registry) error {
 		if c.PresetCT != "" {
 			_ = req.SetHeaderParam("Content-Type", c.PresetCT)
 		}
+		if c.PathValue != "" {
+			_ = req.SetPathParam("id", c.PathValue)
+		}
+		setBody := func(v interface{}) { payloadObj = v; _ = req.SetBodyParam(v) }
 		switch c.Payload {
 		case "value":
-			_ = req.SetBodyParam(valueFor(c.ValueKind, c.BodyLen))
+			setBody(valueFor(c.ValueKind, c.BodyLen))
 		case "reader":
 			stream = content("json", c.BodyLen)
 			if c.BodyChunk > 0 || c.BodyEOF {
-				_ = req.SetBodyParam(&chunkReader{data: append([]byte(nil), stream...), chunk: c.BodyChunk, eofWithData: c.BodyEOF})
+				setBody(&chunkReader{data: append([]byte(nil), stream...), chunk: c.BodyChunk, eofWithData: c.BodyEOF})
 			} else {
-				_ = req.SetBodyParam(onlyReader{bytes.NewReader(stream)})
+				setBody(onlyReader{bytes.NewReader(append([]byte(nil), stream...))})
 			}
 		case "readcloser":
 			stream = content("binary", c.BodyLen)
+			var src io.Reader = bytes.NewReader(append([]byte(nil), stream...))
 			if c.BodyChunk > 0 || c.BodyEOF {
-				_ = req.SetBodyParam(io.NopCloser(&chunkReader{data: append([]byte(nil), stream...), chunk: c.BodyChunk, eofWithData: c.BodyEOF}))
+				src = &chunkReader{data: append([]byte(nil), stream...), chunk: c.BodyChunk, eofWithData: c.BodyEOF}
+			}
+			if c.BodyCloseErr {
+				setBody(errCloser{src})
 			} else {
-				_ = req.SetBodyParam(io.NopCloser(bytes.NewReader(stream)))
+				setBody(io.NopCloser(src))
 			}
 		case "bytes.Buffer": // a caller-owned buffer: the same concrete type the request uses internally
 			stream = content("json", c.BodyLen)
-			_ = req.SetBodyParam(bytes.NewBuffer(append([]byte(nil), stream...)))
+			setBody(bytes.NewBuffer(append([]byte(nil), stream...)))
 		case "bytes.Reader":
 			stream = content("binary", c.BodyLen)
-			_ = req.SetBodyParam(bytes.NewReader(append([]byte(nil), stream...)))
+			setBody(bytes.NewReader(append([]byte(nil), stream...)))
 		case "strings.Reader":
 			stream = content("text", c.BodyLen)
-			_ = req.SetBodyParam(strings.NewReader(string(stream)))
+			setBody(strings.NewReader(string(stream)))
 		}
 		for k, v := range c.Fields {
 			// the request gets slices of its own: the expectation is c.Fields, which it cannot reach
@@ -569,19 +624,16 @@ func submitOn(r *client.Runtime, sw *switchTransport, producers map[string]rt.Pr
 			}
 			switch {
 			case fs.Source == "os-file":
-				if scratch == "" {
-					scratch, _ = os.MkdirTemp("", "c11-upload-")
-				}
-				path := filepath.Join(scratch, fmt.Sprint(len(uploads)), fs.Name)
-				_ = os.MkdirAll(filepath.Dir(path), 0o700)
-				f, err := os.Create(path)
-				if err == nil {
-					_, err = f.Write(u.all)
-				}
-				if err == nil {
-					_, err = f.Seek(int64(u.pos), io.SeekStart)
-				}
+				f, err := scratchFile(&scratch, len(uploads), fs.Name, u.all, u.pos)
 				if err != nil {
+					// the harness could not make its own scratch file (full or refusing file system): the request is
+					// abandoned and nothing is judged
+					scratchErr = err
+					for _, l := range byField {
+						for _, src := range l {
+							src.Close()
+						}
+					}
 					return fmt.Errorf("c11 harness: scratch file: %w", err)
 				}
 				byField[fs.Field] = append(byField[fs.Field], f)
@@ -610,19 +662,42 @@ func submitOn(r *client.Runtime, sw *switchTransport, producers map[string]rt.Pr
 	})
 	var auth rt.ClientAuthInfoWriter
 	if c.GetBody >= 0 {
+		view := func(req rt.ClientRequest) {
+			if !c.AuthReads {
+				return
+			}
+			v := authView{method: req.GetMethod(), path: req.GetPath(), bodyParam: req.GetBodyParam(), files: map[string][]string{}}
+			for field, l := range req.GetFileParam() {
+				for _, src := range l {
+					v.files[field] = append(v.files[field], src.Name())
+				}
+			}
+			sawViews = append(sawViews, v)
+		}
 		auth = rt.ClientAuthInfoWriterFunc(func(req rt.ClientRequest, _ strfmt.Registry) error {
+			view(req)
 			for i := 0; i < c.GetBody; i++ {
 				b := req.GetBody()
 				sawBodies = append(sawBodies, append([]byte(nil), b...))
 			}
+			view(req)
 			return req.SetHeaderParam("X-Signed", fmt.Sprint(c.GetBody))
 		})
 	}
-	op := &rt.ClientOperation{ID: "x", Method: c.Method, PathPattern: "/things", ConsumesMediaTypes: consumes, ProducesMediaTypes: []string{"application/json"},
+	op := &rt.ClientOperation{ID: "x", Method: c.Method, PathPattern: pattern, ConsumesMediaTypes: consumes, ProducesMediaTypes: []string{"application/json"},
 		Params: params, AuthInfo: auth, Reader: rt.ClientResponseReaderFunc(func(rt.ClientResponse, rt.Consumer) (interface{}, error) { return nil, nil })}
+	if c.AuthDefault && auth != nil {
+		op.AuthInfo = nil
+		r.DefaultAuthentication = auth
+		class("auth-writer/as-default-authentication")
+	}
 	var subErr error
 	pv, st := mon.Catch(func() { _, subErr = r.Submit(op) })
 	feat := c.baseFeature()
+	if scratchErr != nil {
+		scratchFailed(class, scratchErr)
+		return nil
+	}
 	if pv != nil {
 		return &verdict{"panic/" + feat, fmt.Sprintf("%v\n%s", pv, st)}
 	}
@@ -640,11 +715,31 @@ func submitOn(r *client.Runtime, sw *switchTransport, producers map[string]rt.Pr
 		}
 		return &verdict{"failed-upload-sent-as-complete/" + where, fmt.Sprintf("Submit succeeded and the transport read a body of %d bytes to its end without error, although an upload source failed; the document: %s: %s", len(cap.body), v.sig, v.detail)}
 	}
+	if c.Payload == "value" && c.ValueKind == "unencodable" && len(c.Fields) == 0 && len(c.Files) == 0 {
+		// a value for which the media type's producer has no encoding cannot be sent as "the producer's encoding
+		// of the value": the request has to fail
+		if prod := producers[c.MediaType]; prod != nil && prod.Produce(io.Discard, valueFor(c.ValueKind, c.BodyLen)) != nil {
+			if subErr != nil || cap.err != nil {
+				class("unencodable-value/request-fails")
+				return nil
+			}
+			return &verdict{"unencodable-value-sent/" + feat, fmt.Sprintf("Submit succeeded and the transport read a body of %d bytes %.60q under Content-Type %q, although the producer refuses the value ; %s", len(cap.body), cap.body, cap.header.Get("Content-Type"), c.describe())}
+		}
+		class("unencodable-value/producer-accepts-it-after-all")
+	}
+	if c.BodyCloseErr && c.Payload == "readcloser" && (subErr != nil || cap.err != nil) {
+		// the payload's own Close failed: the request may be given up; nothing was reported as sent
+		class("payload-close-error/request-fails")
+		return nil
+	}
 	if subErr != nil {
 		return &verdict{"submit-failed/" + feat, fmt.Sprintf("Submit failed: %v ; %s", subErr, c.describe())}
 	}
 	if cap.err != nil {
 		return &verdict{"body-read-error/" + feat, fmt.Sprintf("the transport could not read the body: %v ; %s", cap.err, c.describe())}
+	}
+	if c.BodyCloseErr && c.Payload == "readcloser" {
+		class("payload-close-error/request-sent")
 	}
 	// what a transport goes by: a binding declared length is the number of bytes there are to send, and the
 	// means to send the body once more gives the same bytes
@@ -663,11 +758,23 @@ func submitOn(r *client.Runtime, sw *switchTransport, producers map[string]rt.Pr
 	if n := len(cap.header.Values("Content-Type")); n > 1 {
 		return &verdict{"several-content-types/" + feat, fmt.Sprintf("%d Content-Type header values %q ; %s", n, cap.header.Values("Content-Type"), c.describe())}
 	}
+	// an authentication writer that was installed did its work on the request that is sent
+	if c.GetBody >= 0 {
+		if got := cap.header.Values("X-Signed"); len(got) != 1 || got[0] != fmt.Sprint(c.GetBody) || len(sawBodies) != c.GetBody {
+			return &verdict{"auth-writer-did-not-run/" + feat, fmt.Sprintf("the request sent carries X-Signed %q, the authentication writer sets %q; it made %d of its %d GetBody calls ; %s", got, fmt.Sprint(c.GetBody), len(sawBodies), c.GetBody, c.describe())}
+		}
+	}
 	// what auth saw is what is sent
 	for i, b := range sawBodies {
 		if !bytes.Equal(b, cap.body) {
 			return &verdict{fmt.Sprintf("getbody-differs-from-sent/%s", feat), fmt.Sprintf("GetBody call #%d returned %d bytes %.60q, sent %d bytes %.60q ; %s", i+1, len(b), b, len(cap.body), cap.body, c.describe())}
 		}
+	}
+	if v := c.judgeViews(sawViews, cap, payloadObj, feat); v != nil {
+		return v
+	}
+	if len(sawViews) > 0 {
+		class("auth-views-agree-with-what-is-sent")
 	}
 	hasForm := len(c.Fields) > 0 || len(c.Files) > 0
 	base, first, offered := c.labelled(ct)
@@ -730,9 +837,108 @@ func submitOn(r *client.Runtime, sw *switchTransport, producers map[string]rt.Pr
 		if len(cap.body) != 0 {
 			return &verdict{"body-without-payload/" + feat, fmt.Sprintf("%d body bytes sent without any payload", len(cap.body))}
 		}
+		// nothing was sent: a Content-Type would describe a body that is not there (no case of this branch presets one)
+		if ct != "" && c.PresetCT == "" {
+			return &verdict{"content-type-without-body/" + feat, fmt.Sprintf("Content-Type %q on a request without payload and without body ; %s", ct, c.describe())}
+		}
 		class("no-payload-ok")
 	}
 	return nil
+}
+
+// judgeViews: what the request said about itself to the authentication writer (method, path, body parameter,
+// upload sources), each time it was asked, agrees with what was handed over and with what is sent.
+func (c *Case) judgeViews(views []authView, cap *capture, payloadObj interface{}, feat string) *verdict {
+	for i, v := range views {
+		when := []string{"before", "after"}[i%2] + " its GetBody calls"
+		if v.method != cap.method {
+			return &verdict{"auth-saw-other-method-than-sent/" + feat, fmt.Sprintf("GetMethod gave %q %s, the request sent has method %q ; %s", v.method, when, cap.method, c.describe())}
+		}
+		// the path the writer is shown is the pattern with the values as the caller gave them; the path sent is the
+		// base path followed by it, percent-escaped: decoded, it must read the same
+		if "/api"+v.path != cap.path {
+			return &verdict{"auth-saw-other-path-than-sent/" + feat, fmt.Sprintf("GetPath gave %q %s, the request sent has the path %q (decoded; base path /api) ; %s", v.path, when, cap.path, c.describe())}
+		}
+		switch {
+		case c.Payload == "value" && c.ValueKind != "unencodable":
+			if want := valueFor(c.ValueKind, c.BodyLen); !reflect.DeepEqual(v.bodyParam, want) {
+				return &verdict{"auth-saw-other-body-param/" + feat, fmt.Sprintf("GetBodyParam gave %.80v (%T) %s, the body parameter set is %.80v (%T) ; %s", v.bodyParam, v.bodyParam, when, want, want, c.describe())}
+			}
+		case c.Payload == "none" || c.Payload == "":
+			if v.bodyParam != nil {
+				return &verdict{"auth-saw-other-body-param/" + feat, fmt.Sprintf("GetBodyParam gave a %T %s, no body parameter was set ; %s", v.bodyParam, when, c.describe())}
+			}
+		default: // a stream, or a value without encoding: the very object that was handed over
+			if !sameObject(v.bodyParam, payloadObj) {
+				return &verdict{"auth-saw-other-body-param/" + feat, fmt.Sprintf("GetBodyParam gave a %T %s that is not the %T handed to SetBodyParam ; %s", v.bodyParam, when, payloadObj, c.describe())}
+			}
+		}
+		want := map[string][]string{}
+		for _, fs := range c.Files {
+			want[fs.Field] = append(want[fs.Field], filepath.Base(fs.Name))
+		}
+		got := map[string][]string{}
+		for field, names := range v.files {
+			for _, n := range names {
+				got[field] = append(got[field], filepath.Base(n))
+			}
+		}
+		if !sameValues(got, want) || !sameValuesInOrder(got, want) {
+			return &verdict{"auth-saw-other-files/" + feat, fmt.Sprintf("GetFileParam gave the sources (field -> base names) %q %s, handed over and sent were %q ; %s", got, when, want, c.describe())}
+		}
+	}
+	return nil
+}
+
+// sameObject: two interface values holding the same pointer, or equal values of one comparable type.
+func sameObject(a, b interface{}) (same bool) {
+	defer func() {
+		if recover() != nil { // values of a type that cannot be compared
+			same = reflect.DeepEqual(a, b)
+		}
+	}()
+	return a == b
+}
+
+var scratchFailures int
+
+// scratchFile makes the real file of an os-file source: a file called name in a directory of its own under the
+// case's scratch directory, holding all, positioned at pos. It tries twice (a fresh scratch directory the second time).
+func scratchFile(scratch *string, n int, name string, all []byte, pos int) (f *os.File, err error) {
+	for attempt := 0; attempt < 2; attempt++ {
+		if *scratch == "" {
+			if *scratch, err = os.MkdirTemp("", "c11-upload-"); err != nil {
+				*scratch = ""
+				continue
+			}
+		}
+		path := filepath.Join(*scratch, fmt.Sprintf("%d.%d", n, attempt), name)
+		if err = os.MkdirAll(filepath.Dir(path), 0o700); err != nil {
+			continue
+		}
+		if f, err = os.Create(path); err != nil {
+			continue
+		}
+		if _, err = f.Write(all); err == nil {
+			_, err = f.Seek(int64(pos), io.SeekStart)
+		}
+		if err == nil {
+			return f, nil
+		}
+		f.Close()
+	}
+	return nil, err
+}
+
+// scratchFailed counts a case that was given up because the harness could not make a scratch file. It says
+// nothing about the property. A worker that keeps meeting it observes nothing useful any more: it stops in the
+// way the driver reports as INCONCLUSIVE (a worker that died of a machine resource).
+func scratchFailed(class func(string), err error) {
+	class("env:harness-scratch-file-failed(not judged)")
+	scratchFailures++
+	if scratchFailures >= 25 {
+		panic(fmt.Sprintf("c11: the machine refuses the harness's scratch files (no space left on device, or the like): %d failures, last: %v", scratchFailures, err))
+	}
 }
 
 func judgeMultipart(class func(string), c *Case, cap *capture, ct string, uploads []*upload, feat string) *verdict {
@@ -830,7 +1036,13 @@ func judgeMultipart(class func(string), c *Case, cap *capture, ct string, upload
 		}
 	}
 	if mt != "multipart/form-data" {
-		return &verdict{"content-type-does-not-describe-body/multipart-labelled-" + mt, fmt.Sprintf("a multipart document was sent under Content-Type %q ; %s", ct, c.describe())}
+		// the recorded mislabelling is the one of files sent for the chosen type application/x-www-form-urlencoded,
+		// labelled with that type; a multipart document mislabelled in any other situation names the chosen type too
+		sig := "content-type-does-not-describe-body/multipart-labelled-" + mt
+		if !(c.MediaType == "application/x-www-form-urlencoded" && mt == c.MediaType && len(c.Files) > 0) {
+			sig += "/chosen-" + c.MediaType
+		}
+		return &verdict{sig, fmt.Sprintf("a multipart document was sent under Content-Type %q ; %s", ct, c.describe())}
 	}
 	class("multipart-ok")
 	return nil
@@ -940,6 +1152,15 @@ func (c *Case) decorations() string {
 	}
 	if c.Debug {
 		f += "/debug"
+	}
+	if c.AuthDefault && c.GetBody >= 0 {
+		f += "/default-authentication"
+	}
+	if c.PathValue != "" {
+		f += "/path-parameter"
+	}
+	if c.BodyCloseErr {
+		f += "/payload-close-fails"
 	}
 	for _, fs := range c.Files {
 		if fs.Source != "" {
@@ -1063,6 +1284,7 @@ func run(m *mon.M) {
 				if chunk == 0 && r.Intn(4) == 0 {
 					c.Files[0].Seekable, c.Files[0].Offset = true, []int{16, 512, 700}[r.Intn(3)]
 				}
+				decorateAuth(r, c)
 				m.Begin(c)
 				runCase(m, c)
 			}
@@ -1136,6 +1358,9 @@ func genFailing(r *rand.Rand, n int) []*Case {
 		if r.Intn(10) == 0 {
 			c.Debug = true
 		}
+		if c.GetBody >= 0 && r.Intn(4) == 0 {
+			c.AuthDefault = true
+		}
 		out = append(out, c)
 	}
 	return out
@@ -1157,6 +1382,9 @@ func genMix(r *rand.Rand, lens func() int) *Case {
 			ks := producerKinds[c.MediaType]
 			c.ValueKind = ks[r.Intn(len(ks))]
 			c.BodyLen = lens()
+			if (c.MediaType == "application/json" || c.MediaType == "application/xml") && r.Intn(8) == 0 {
+				c.ValueKind = "unencodable"
+			}
 		case 3:
 			c.MediaType = mts[r.Intn(7)]
 			c.Payload = []string{"reader", "readcloser", "bytes.Buffer", "bytes.Reader", "strings.Reader"}[r.Intn(5)]
@@ -1229,6 +1457,30 @@ func decorate(r *rand.Rand, c *Case) {
 	}
 	if r.Intn(12) == 0 {
 		c.Debug = true
+	}
+	decorateAuth(r, c)
+	if c.Payload == "readcloser" && r.Intn(2) == 0 {
+		c.BodyCloseErr = true
+	}
+}
+
+var pathValues = []string{"7", "a b", "x/y", "\u00e9", "100%", "q?x=1", "{id}", "..", "a#b", "%2F"}
+
+// decorateAuth varies the authentication writer: installed for the whole transport (Runtime.DefaultAuthentication)
+// instead of for the operation, and reading the request's other views; half of the latter on an operation with a
+// path parameter.
+func decorateAuth(r *rand.Rand, c *Case) {
+	if c.GetBody < 0 {
+		return
+	}
+	if r.Intn(4) == 0 {
+		c.AuthDefault = true
+	}
+	if r.Intn(3) == 0 {
+		c.AuthReads = true
+		if r.Intn(2) == 0 {
+			c.PathValue = pathValues[r.Intn(len(pathValues))]
+		}
 	}
 }
 
